@@ -48,4 +48,18 @@ def publishCheck (proto : Nat) (topic : List UInt8) (qos : Int) (ptag : PayloadT
   else if Gen.pubPayloadCmp.evalNat plen Gen.pubPayloadMax then some .valueError
   else none
 
+/-- remaining length of the PUBLISH packet as `publish()` computes it up front
+(`propsLen` = 1 for MQTT 5 without properties, `len(properties.pack())` otherwise, 0 for MQTT 3) -/
+def publishRemLen (topicLen plen : Nat) (qos : Int) (propsLen : Nat) : Nat :=
+  2 + topicLen + plen + (if qos > 0 then 2 else 0) + propsLen
+
+/-- all checks of `publish()` that precede the allocation of a packet id: the argument
+checks followed by the whole-packet size guard -/
+def publishCheckFull (proto : Nat) (topic : List UInt8) (qos : Int) (ptag : PayloadTag) (plen propsLen : Nat) : Option Exc :=
+  match publishCheck proto topic qos ptag plen with
+  | some e => some e
+  | none =>
+    if Gen.pubRemLenCmp.evalNat (publishRemLen topic.length plen qos propsLen) Gen.pubRemLenMax then some .valueError
+    else none
+
 end Paho
